@@ -114,6 +114,11 @@ def record(prog, s, left, res: Result, cases, metas):
                                     signature={"component": "DelayedQueue", "law": law},
                                     observed=[list(e) for e in ev], expected="see property C17"))
     labels = dqprog.dq_labels(prog, s)
+    if labels is None:
+        res.mismatches.append(Mismatch("DelayQueue LTS (critical sections)", meta,
+                                       "one critical section per put/remove/close call",
+                                       "more lock acquisitions than calls: the locking structure of the code differs from the model"))
+        return
     cases.append(sx([dqprog.DELAY_UNITS, labels]))
     got = [[e[2], e[3]] for e in ev if e[1] == "got" and e[2] is not None]
     ends = sum(1 for e in ev if e[1] == "got" and e[2] is None)
